@@ -507,8 +507,8 @@ def release (env : Env) (s : State) (r : Nat) (discard : Bool) : State :=
   match s.holders.find? (·.req == r) with
   | none => s.fail "release: not a holder"
   | some h =>
-    -- (the caller has given the connection up whether or not the pool accepts it)
-    let s := { s with holders := s.holders.filter (·.req != r) }
+    -- (when the pool refuses the release — only possible after `prune_all_connections` — the
+    --  connection stays marked as lent: nothing changes)
     match findName s.blocks h.name with
     | none => s.fail "release: database is not known to the pool"
     | some b =>
